@@ -466,3 +466,109 @@ func genSpiral(rng *rand.Rand, w int) lpoly {
 	}
 	return lpoly{r}
 }
+
+// genCourt: shells with few, long edges (triangle, diamond, rectangle with a cut corner, two lobes joined by a neck thinner than
+// a pixel) and one small hole placed (a) anywhere inside - in particular inside the bounding box of one long sloped edge, below
+// or above it - or (b) with every vertex a quarter pixel inside a different shell edge, so that the snapped hole touches its
+// shell with all its vertices.  Random symmetry of the square applied.  Validity is decided by the specification, not here.
+func genCourt(rng *rand.Rand, w int) lpoly {
+	max := w * 4
+	m := max - 2
+	var shell [][2]int
+	switch rng.Intn(4) {
+	case 0: // right triangle, hypotenuse descending
+		shell = [][2]int{{1, 1}, {m, 1}, {1, m}}
+	case 1: // diamond
+		h := m / 2
+		shell = [][2]int{{h, 1}, {m, h}, {h, m}, {1, h}}
+	case 2: // rectangle with a cut corner
+		c := m/3 + rng.Intn(m/3)
+		shell = [][2]int{{1, 1}, {m, 1}, {m, c}, {c, m}, {1, m}}
+	default: // two lobes and a neck of 1-2 lattice units
+		a, b := max/3, 2*max/3
+		y := max/2 - 1
+		nw := 1 + rng.Intn(2)
+		shell = [][2]int{{1, 1}, {a, 1}, {a, y}, {b, y}, {b, 2}, {m, 2}, {m, m}, {b, m}, {b, y + nw}, {a, y + nw}, {a, m - 1}, {1, m - 1}}
+	}
+	// a point strictly inside the shell by rejection on the even-odd rule
+	inside := func(p [2]int) bool {
+		in := false
+		n := len(shell)
+		for i := 0; i < n; i++ {
+			a, b := shell[i], shell[(i+1)%n]
+			if (a[1] > p[1]) != (b[1] > p[1]) {
+				// x of the edge at height p[1], compared exactly
+				lhs := (p[0] - a[0]) * (b[1] - a[1])
+				rhs := (b[0] - a[0]) * (p[1] - a[1])
+				if (b[1] > a[1] && lhs < rhs) || (b[1] < a[1] && lhs > rhs) {
+					in = !in
+				}
+			}
+		}
+		return in
+	}
+	var hole [][2]int
+	if rng.Intn(3) == 0 {
+		// every vertex just inside another shell edge (the last lobe of the dumbbell if there is one)
+		edges := rng.Perm(len(shell))
+		if len(shell) == 12 {
+			edges = []int{4, 5, 6, 7}
+			rng.Shuffle(len(edges), func(i, j int) { edges[i], edges[j] = edges[j], edges[i] })
+		}
+		for _, e := range edges {
+			a, b := shell[e], shell[(e+1)%len(shell)]
+			t := 1 + rng.Intn(3)
+			p := [2]int{a[0] + (b[0]-a[0])*t/4, a[1] + (b[1]-a[1])*t/4}
+			for _, d := range [][2]int{{1, 0}, {-1, 0}, {0, 1}, {0, -1}, {1, 1}, {-1, -1}, {1, -1}, {-1, 1}} {
+				q := [2]int{p[0] + d[0], p[1] + d[1]}
+				if inside(q) {
+					hole = append(hole, q)
+					break
+				}
+			}
+			if len(hole) == 3 {
+				break
+			}
+		}
+	} else {
+		for tries := 0; tries < 50 && hole == nil; tries++ {
+			c := [2]int{1 + rng.Intn(m), 1 + rng.Intn(m)}
+			s := 2 + rng.Intn(max/4+1)
+			h := [][2]int{c, {c[0], c[1] + s}, {c[0] + s, c[1] + s}, {c[0] + s, c[1]}}
+			ok := true
+			for _, q := range h {
+				if !inside(q) {
+					ok = false
+				}
+			}
+			if ok {
+				if rng.Intn(2) == 0 {
+					h = h[:3]
+				}
+				hole = h
+			}
+		}
+	}
+	p := lpoly{shell}
+	if len(hole) >= 3 {
+		p = append(p, hole)
+	}
+	// one of the 8 symmetries of the square
+	sym := rng.Intn(8)
+	for r := range p {
+		for i := range p[r] {
+			x, y := p[r][i][0], p[r][i][1]
+			if sym&1 != 0 {
+				x = max - x
+			}
+			if sym&2 != 0 {
+				y = max - y
+			}
+			if sym&4 != 0 {
+				x, y = y, x
+			}
+			p[r][i] = [2]int{x, y}
+		}
+	}
+	return p
+}
